@@ -409,6 +409,10 @@ func writeAmountWithSign(sb *strings.Builder, amount *ast.Amount, commodityForma
 // of other scripts, lower-case words and currency signs the lexer does not
 // know would otherwise turn into text that no longer parses as an amount.
 func commodityText(symbol string) string {
+	if symbol == "" {
+		// an amount without commodity: nothing to write, and nothing to quote
+		return ""
+	}
 	if !parser.IsPlainCommodity(symbol) {
 		return "\"" + symbol + "\""
 	}
